@@ -19,6 +19,7 @@ RULE = ("Generated lifecycles (op programs): construct a state of one of the thr
         "and the corresponding gradient slices are exactly 0. Non-trivial = a module-constructed complex/density state followed by "
         "an in-place mutation, or a density state trained >= 2 steps with a non-SGD optimizer.")
 RULE_EXT = ('Extended as built: poison_reinit (NaN written then reinitialise), numpy int64/int32 sizes, n up to 9, gpu argument default / True on a CPU-only host, divergence-guarded training (excluded and counted). Rounds 5-6: user module created with zero_weights=True; the initialize_parameters(zero_weights=...) method of the networks called directly; num_aux = 0 given explicitly.')
+RULE_EXT += ' Round 10 (after an exception / long time axis): op aborted_fit (exception from a user callback in on_batch_end / on_epoch_end / on_train_start, caught) before reinitialise / train / mutate ops; training with k in {20, 25} Gibbs steps.'
 RULE = RULE + " " + RULE_EXT
 ASSUMPTIONS = ["CPU only (gpu=False)", "user modules are BinaryRBM / PurificationRBM instances as documented"]
 
